@@ -23,13 +23,7 @@ from common import enc_str, dec_str
 import loadcommon as L
 import xmlcorr as X
 
-NCNAME_START = re.compile(u'^[A-Za-z_À-ÖØ-öø-˿Ͱ-ͽͿ-῿‌-‍'
-                          u'⁰-↏Ⰰ-⿯、-퟿豈-﷏ﷰ-�]')
 REQUESTED = (u'meta', u'config', u'dc', u'style', u'svg', u'fo', u'draw', u'table', u'form')
-
-
-def is_ncname(s):
-    return bool(s) and bool(NCNAME_START.match(s)) and not re.search(u'[^\\w.\\-·]', s, re.U) and u':' not in s
 
 
 # ------------------------------------------------------------------------------------------- the real code
@@ -438,7 +432,28 @@ def run(chk, replay=None):
             print('replay: %s :: %s' % (sig, det[:300]))
         return 1 if bad else 0
     cases = gen_cases(chk)
-    import c05 as _self
+    chk.assumptions += [
+        "C05 is PARTIAL by construction: the text of a foreign part becomes a SAX event stream through expat (trusted: a conforming XML 1.0 + Namespaces processor; it rejects a start tag that names an attribute twice); the Lean model starts from the event stream",
+        "attribute converters (Element.setAttrNS -> AttrConverters.convert) are a parameter of the load model: the harness applies the real converter to the recorded events (C15 checks them)",
+        "the manifest dispatch of load()/save() is the model lean/OdfModel/Pkg.lean, tied to the code by the correspondence of C03/C16 (drv_pkg); extras_carried is proved about that model",
+    ]
+    chk.notes.append('oracle: source package vs re-saved package, both read with zipfile + expat only (harness/loadcommon.py); '
+                     'signatures are predicates on the SOURCE package (fix_analysis, style_names, nested_section, object_sig, rejected_values)')
+    def deep():
+        # something in the model no longer matches: look harder for a package the real code does not preserve
+        import loadmut as M
+        for f in sample_files():
+            for m, _ in M.MUTATORS:
+                rc = {'base': 'file:' + f, 'mut': m, 'seed': chk.rng.getrandbits(48)}
+                raw = build_case(rc)
+                if raw is None or has_doctype(L.read_pkg(raw)):
+                    continue
+                rep, saved, doc, printed = run_package(raw)
+                for sig, det in rep.items:
+                    chk.fail(sig, rc, det)
+            if chk.failures:
+                return
+    chk.deep_search = deep
     chk.prove(modules=['OdfModel.Props.C05'], drivers=['drv_load'])
     drv = chk.driver('drv_load')
     for rc in cases:
